@@ -58,3 +58,30 @@ def applyNotifications : List (List ContentChange) → List Char → Option (Lis
   | n :: ns, t => (applyAll n t).bind (applyNotifications ns)
 
 end Spl.LspPos
+
+namespace Spl.LspPos
+
+def unitsOf (s : List Char) : Nat := (s.map units).sum
+
+/-- Position of byte offset `idx`: line = number of terminators that end before `idx`,
+    column = UTF-16 units between the line start and `idx`. -/
+def positionOf : Nat → List Char → Nat → Nat → Pos
+  | 0, _, _, line => ⟨line, 0⟩
+  | fuel + 1, t, idx, line =>
+    match firstLine t with
+    | (content, eol, some r) =>
+      let lineLen := utf8Len content + utf8Len eol
+      if idx < lineLen then
+        -- inside this line (or inside its terminator: clamp to the content)
+        let pre := takeBytes content idx
+        ⟨line, unitsOf pre⟩
+      else positionOf fuel r (idx - lineLen) (line + 1)
+    | (content, _, none) => ⟨line, unitsOf (takeBytes content idx)⟩
+where
+  takeBytes : List Char → Nat → List Char
+    | [], _ => []
+    | c :: r, n => if n = 0 then [] else if c.utf8Size ≤ n then c :: takeBytes r (n - c.utf8Size) else []
+
+def position (t : List Char) (idx : Nat) : Pos := positionOf (t.length + 2) t idx 0
+
+end Spl.LspPos
